@@ -1,7 +1,12 @@
 (* Dcel/ProofsSplit.v -- split_edge and split_half_edge (GENERATED Gen/DcelOps.v) preserve link-level
    well-formedness (DWf), with exact count deltas and frame facts (property C02, family P6). *)
+(* ROBUSTNESS AGAINST REORDERINGS OF THE GENERATED CODE.  No proof below depends on the order of the statements of
+   the generated split_edge / split_half_edge: se_chain / sh_chain are the generated functions themselves (with
+   names for their local values), and the pointwise descriptions se_he_* / se_adj_* / se_vert_* / sh_* of the
+   result are obtained by evaluating reads through the generated chain of writes with the order-independent
+   reader of Dcel/Chain.v (se_open / sh_open + ch_read). *)
 From Coq Require Import ZArith List Bool Arith Lia.
-From SpadeV Require Import Obs.State Obs.Spec Obs.SpecProp Vmap.Model Dcel.Raw Dcel.WfCore Gen.DcelOps.
+From SpadeV Require Import Obs.State Obs.Spec Obs.SpecProp Vmap.Model Dcel.Raw Dcel.Chain Dcel.WfCore Gen.DcelOps.
 Import ListNotations.
 
 (* ------------------------------------------------------------------------------------------------ *)
@@ -117,7 +122,6 @@ Proof. reflexivity. Qed.
 
 #[local] Hint Rewrite len_upd len_push_edge len_push_vertex len_push_face len_set_out_edge len_set_adj : len.
 
-Ltac unfold_setters := unfold set_next, set_prev, set_face, set_origin, set_half_edge.
 
 (* ------------------------------------------------------------------------------------------------ *)
 (* DWf in terms of the raw accessors *)
@@ -303,7 +307,6 @@ Proof. intros; apply app_nth1; assumption. Qed.
 Lemma nth_snoc_new : forall A (l : list A) a i dflt, i = length l -> nth i (l ++ [a]) dflt = a.
 Proof. intros A l a i dflt ->. rewrite app_nth2 by lia. rewrite Nat.sub_diag; reflexivity. Qed.
 
-Ltac slen := autorewrite with len; lia.
 
 (* ------------------------------------------------------------------------------------------------ *)
 (* split_edge *)
@@ -312,29 +315,17 @@ Definition distinct6 (a b c e f g : nat) : Prop :=
   a <> b /\ a <> c /\ a <> e /\ a <> f /\ a <> g /\ b <> c /\ b <> e /\ b <> f /\ b <> g /\
   c <> e /\ c <> f /\ c <> g /\ e <> f /\ e <> g /\ f <> g.
 
-(* the body of DcelOps.split_edge with its local names abstracted *)
+(* The dcel computed by DcelOps.split_edge, with names for the local values of the generated function.
+
+   se_chain is NOT a copy of the generated chain of writes (such a copy would tie every proof below to the
+   order of the generated statements).  It is the first component of the generated function itself; the extra
+   parameters are the names under which the context SEctx below knows the values the function computes
+   (e1 = first new half-edge, en = next of e0, f2 = first new face, ...).  Under SEctx they are all determined
+   by d and e0, and the lemmas se_he_* / se_adj_* / se_vert_* describe the result pointwise in terms of them;
+   their proofs evaluate the reads through the generated chain with the order-independent tactics of Chain.v. *)
 Definition se_chain (d : dcel) (e0 t0 e1 t1 e2 t2 e3 t3 ep en tn tp f0 f1 f2 f3 v0 v1 v2 v3 v4 : nat)
     (nvd : vdata) : dcel :=
-  let dcel := set_half_edge d e0 (mkh t3 ep f0 v1) in
-  let dcel := set_half_edge dcel t0 (mkh tn e1 f1 v0) in
-  let dcel := push_edge dcel (mkh t0 tn f1 v2) (mkh tp e2 f2 v0) in
-  let dcel := push_edge dcel (mkh t1 tp f2 v3) (mkh en e3 f3 v0) in
-  let dcel := push_edge dcel (mkh t2 en f3 v4) (mkh ep e0 f0 v0) in
-  let dcel := set_next dcel en e3 in
-  let dcel := set_prev dcel en t2 in
-  let dcel := set_face dcel en f3 in
-  let dcel := set_next dcel tp e2 in
-  let dcel := set_prev dcel tp t1 in
-  let dcel := set_face dcel tp f2 in
-  let dcel := set_next dcel tn e1 in
-  let dcel := set_prev dcel ep t3 in
-  let dcel := push_vertex dcel nvd (Some t0) in
-  let dcel := set_out_edge dcel v3 (Some e2) in
-  let dcel := set_adjacent_edge dcel f0 (Some e0) in
-  let dcel := set_adjacent_edge dcel f1 (Some e1) in
-  let dcel := push_face dcel (Some e2) in
-  let dcel := push_face dcel (Some e3) in
-  dcel.
+  fst (DcelOps.split_edge d e0 nvd).
 
 Lemma split_edge_unfold : forall d e v,
   DcelOps.split_edge d e v =
@@ -462,15 +453,27 @@ Proof.
 Qed.
 
 
-Tactic Notation "ev_step" tactic(neq) :=
-  first [ rewrite he_push_vertex | rewrite he_push_face | rewrite he_set_out_edge | rewrite he_set_adj
-        | rewrite he_upd_eq by slen
-        | rewrite he_upd_neq by neq
-        | rewrite he_push_old by slen
-        | rewrite he_push_0 by slen
-        | rewrite he_push_1 by slen ].
 
-Ltac hproj := cbn beta; cbn [h_next h_prev h_face h_org].
+
+(* Rename the values which an opened generated chain reads from the base dcel to the names of the context:
+   with   H : h_next (half_edge d e0) = en   every  h_next (half_edge d e0)  of the goal becomes  en,  with
+   H : rev e0 = t0  every  e_rev e0  becomes t0,  with  H : f3 = length (d_faces d) + 1  every  num_faces d + 1
+   becomes f3, ...  The equations are found in the context by their shape (the destructed SEctx / SHctx). *)
+Ltac ctx_rename :=
+  unfold e_to; unfold e_rev, num_faces, num_vertices;
+  unfold e_next, e_prev, e_face, e_origin in *;
+  repeat match goal with
+  | H : rev ?x = ?y |- context [rev ?x] => is_var y; rewrite H
+  | H : ?p (half_edge ?dd ?x) = ?y |- context [?p (half_edge ?dd ?x)] =>
+      lazymatch y with context [half_edge] => fail | _ => idtac end; rewrite H
+  end;
+  repeat match goal with
+  | H : ?y = length (d_faces ?dd) + 1 |- context [length (d_faces ?dd) + 1] => is_var y; rewrite <- H
+  end;
+  repeat match goal with
+  | H : ?y = length (d_faces ?dd) |- context [length (d_faces ?dd)] => is_var y; rewrite <- H
+  | H : ?y = length (d_verts ?dd) |- context [length (d_verts ?dd)] => is_var y; rewrite <- H
+  end.
 
 Section SE.
 Variables (d : dcel) (e0 t0 en ep tn tp e1 t1 e2 t2 e3 t3 f0 f1 f2 f3 v0 v1 v2 v3 v4 : nat) (nvd : vdata).
@@ -490,43 +493,61 @@ Ltac neq :=
         | match goal with O : se_other _ |- _ =>
             unfold se_other in O; decompose [and] O; first [assumption | apply not_eq_sym; assumption] end ].
 
-Ltac ev := unfold se_chain; unfold_setters; repeat (ev_step neq); hproj.
+(* the names of the context for the values computed by the generated function *)
+Lemma se_names :
+  normalized (num_undirected_edges d) = e1 /\ normalized (num_undirected_edges d + 1) = e2 /\
+  normalized (num_undirected_edges d + 2) = e3.
+Proof.
+  se_ctx C. pose proof (r_even d W) as Hev. unfold normalized, num_undirected_edges.
+  clear - Hev He1 He2 He3. lia.
+Qed.
+
+(* Open d' = fst (split_edge d e0 nvd) into the generated chain of writes and rename the values it reads from d
+   (e_rev e0, h_next (half_edge d e0), num_faces d + 1, ...) to the names of the context.  To be called after
+   se_ctx C.  Nothing here looks at the order of the writes. *)
+Ltac se_open :=
+  let Q1 := fresh "Q" in let Q2 := fresh "Q" in let Q3 := fresh "Q" in
+  destruct se_names as (Q1 & Q2 & Q3);
+  unfold se_chain, DcelOps.split_edge; cbv zeta; cbn [fst];
+  rewrite ?Q1, ?Q2, ?Q3;
+  ctx_rename;
+  match goal with D : distinct6 _ _ _ _ _ _ |- _ =>
+    let D' := fresh "D" in pose proof D as D'; unfold distinct6 in D'; decompose [and] D'; clear D' end;
+  try match goal with O : se_other _ |- _ =>
+    let O' := fresh "O" in pose proof O as O'; unfold se_other in O'; decompose [and] O'; clear O' end.
+
+(* half_edge d' x = ... : open, then evaluate the four fields through the chain *)
+Ltac ev := se_open; ch_fields; ch_read; ch_fin.
 
 Lemma se_len : length (d_hedges d') = NH + 6.
-Proof. unfold se_chain; unfold_setters; autorewrite with len; lia. Qed.
+Proof using Type. unfold se_chain, DcelOps.split_edge; cbv zeta; cbn [fst]. ch_len. lia. Qed.
 
 Lemma se_he_e0 : half_edge d' e0 = mkh t3 ep f0 v1.
-Proof. se_ctx C. ev. reflexivity. Qed.
+Proof. se_ctx C. ev. Qed.
 Lemma se_he_t0 : half_edge d' t0 = mkh tn e1 f1 v0.
-Proof. se_ctx C. ev. reflexivity. Qed.
+Proof. se_ctx C. ev. Qed.
 Lemma se_he_e1 : half_edge d' e1 = mkh t0 tn f1 v2.
-Proof. se_ctx C. ev. reflexivity. Qed.
+Proof. se_ctx C. ev. Qed.
 Lemma se_he_t1 : half_edge d' t1 = mkh tp e2 f2 v0.
-Proof. se_ctx C. ev. reflexivity. Qed.
+Proof. se_ctx C. ev. Qed.
 Lemma se_he_e2 : half_edge d' e2 = mkh t1 tp f2 v3.
-Proof. se_ctx C. ev. reflexivity. Qed.
+Proof. se_ctx C. ev. Qed.
 Lemma se_he_t2 : half_edge d' t2 = mkh en e3 f3 v0.
-Proof. se_ctx C. ev. reflexivity. Qed.
+Proof. se_ctx C. ev. Qed.
 Lemma se_he_e3 : half_edge d' e3 = mkh t2 en f3 v4.
-Proof. se_ctx C. ev. reflexivity. Qed.
+Proof. se_ctx C. ev. Qed.
 Lemma se_he_t3 : half_edge d' t3 = mkh ep e0 f0 v0.
-Proof. se_ctx C. ev. reflexivity. Qed.
+Proof. se_ctx C. ev. Qed.
 Lemma se_he_en : half_edge d' en = mkh e3 t2 f3 v3.
-Proof. se_ctx C. ev. unfold e_origin in Hog_en. rewrite Hog_en. reflexivity. Qed.
+Proof. se_ctx C. ev. Qed.
 Lemma se_he_tp : half_edge d' tp = mkh e2 t1 f2 v2.
-Proof. se_ctx C. ev. unfold e_origin in Hog_tp. rewrite Hog_tp. reflexivity. Qed.
+Proof. se_ctx C. ev. Qed.
 Lemma se_he_tn : half_edge d' tn = mkh e1 t0 f1 v1.
-Proof.
-  se_ctx C. ev. unfold e_origin in Hog_tn. unfold e_prev in Hpv_tn. unfold e_face in Hfc_tn.
-  rewrite Hog_tn, Hpv_tn, Hfc_tn. reflexivity.
-Qed.
+Proof. se_ctx C. ev. Qed.
 Lemma se_he_ep : half_edge d' ep = mkh e0 t3 f0 v4.
-Proof.
-  se_ctx C. ev. unfold e_origin in Hog_ep. unfold e_next in Hnx_ep. unfold e_face in Hfc_ep.
-  rewrite Hog_ep, Hnx_ep, Hfc_ep. reflexivity.
-Qed.
+Proof. se_ctx C. ev. Qed.
 Lemma se_he_other : forall x, se_other x -> half_edge d' x = half_edge d x.
-Proof. intros x O. se_ctx C. assert (Hx : x < NH) by apply O. ev. reflexivity. Qed.
+Proof. intros x O. se_ctx C. assert (Hx : x < NH) by apply O. se_open. ch_read. reflexivity. Qed.
 
 Lemma se_rev_e0 : rev e0 = t0. Proof. se_ctx C; assumption. Qed.
 Lemma se_rev_t0 : rev t0 = e0. Proof. rewrite <- se_rev_e0; apply rev_invol. Qed.
@@ -687,49 +708,23 @@ Proof.
   apply (r_links d W x Hlt).
 Qed.
 
-Lemma se_faces : d_faces d' = (set_nth f1 (Some e1) (set_nth f0 (Some e0) (d_faces d)) ++ [Some e2]) ++ [Some e3].
-Proof. reflexivity. Qed.
-
 Lemma se_adj_f0 : f_adjacent d' f0 = Some e0.
-Proof.
-  se_ctx C. unfold f_adjacent. rewrite se_faces.
-  rewrite nth_snoc_old by (rewrite app_length, !length_set_nth; cbn [length]; lia).
-  rewrite nth_snoc_old by (rewrite !length_set_nth; lia).
-  rewrite nth_set_nth_neq by assumption.
-  apply nth_set_nth_eq; assumption.
-Qed.
+Proof. se_ctx C. se_open. ch_read. reflexivity. Qed.
 
 Lemma se_adj_f1 : f_adjacent d' f1 = Some e1.
-Proof.
-  se_ctx C. unfold f_adjacent. rewrite se_faces.
-  rewrite nth_snoc_old by (rewrite app_length, !length_set_nth; cbn [length]; lia).
-  rewrite nth_snoc_old by (rewrite !length_set_nth; lia).
-  apply nth_set_nth_eq. rewrite length_set_nth; assumption.
-Qed.
+Proof. se_ctx C. se_open. ch_read. reflexivity. Qed.
 
 Lemma se_adj_f2 : f_adjacent d' f2 = Some e2.
-Proof.
-  se_ctx C. unfold f_adjacent. rewrite se_faces.
-  rewrite nth_snoc_old by (rewrite app_length, !length_set_nth; cbn [length]; lia).
-  apply nth_snoc_new. rewrite !length_set_nth; assumption.
-Qed.
+Proof. se_ctx C. se_open. ch_read. reflexivity. Qed.
 
 Lemma se_adj_f3 : f_adjacent d' f3 = Some e3.
-Proof.
-  se_ctx C. unfold f_adjacent. rewrite se_faces.
-  apply nth_snoc_new. rewrite app_length, !length_set_nth; cbn [length]; lia.
-Qed.
+Proof. se_ctx C. se_open. ch_read. reflexivity. Qed.
 
 Lemma se_adj_old : forall f, f < NF -> f <> f0 -> f <> f1 -> f_adjacent d' f = f_adjacent d f.
-Proof.
-  intros f Hf N0 N1. se_ctx C. unfold f_adjacent. rewrite se_faces.
-  rewrite nth_snoc_old by (rewrite app_length, !length_set_nth; cbn [length]; lia).
-  rewrite nth_snoc_old by (rewrite !length_set_nth; lia).
-  rewrite !nth_set_nth_neq by assumption. reflexivity.
-Qed.
+Proof. intros f Hf N0 N1. se_ctx C. se_open. ch_read. reflexivity. Qed.
 
 Lemma se_nfaces : length (d_faces d') = NF + 2.
-Proof. rewrite se_faces, !app_length, !length_set_nth; cbn [length]; lia. Qed.
+Proof using Type. unfold se_chain, DcelOps.split_edge; cbv zeta; cbn [fst]. ch_len. lia. Qed.
 
 Hint Rewrite se_adj_f0 se_adj_f1 se_adj_f2 se_adj_f3 : se.
 
@@ -803,29 +798,23 @@ Qed.
 
 Local Notation newv := (mkv (vd_x nvd) (vd_y nvd) (vd_d nvd) (Some t0)).
 
-Lemma se_verts : d_verts d' =
-  set_nth v3 (let r := nth v3 (d_verts d ++ [newv]) dflt_v in mkv (v_x r) (v_y r) (v_data r) (Some e2))
-    (d_verts d ++ [newv]).
-Proof. reflexivity. Qed.
-
 Lemma se_nverts : length (d_verts d') = S NV.
-Proof. rewrite se_verts, length_set_nth, app_length; cbn [length]; lia. Qed.
+Proof using Type. unfold se_chain, DcelOps.split_edge; cbv zeta; cbn [fst]. ch_len. lia. Qed.
 
 Lemma se_vert_new : nth v0 (d_verts d') dflt_v = newv.
 Proof.
-  se_ctx C. rewrite se_verts. rewrite nth_set_nth_neq by lia. apply nth_snoc_new; assumption.
+  se_ctx C. apply ch_vrec_ext; cbn [v_x v_y v_data v_out]; se_open; ch_read; reflexivity.
 Qed.
 
 Lemma se_vert_v3 : nth v3 (d_verts d') dflt_v =
   let b := nth v3 (d_verts d) dflt_v in mkv (v_x b) (v_y b) (v_data b) (Some e2).
 Proof.
-  se_ctx C. rewrite se_verts. rewrite nth_set_nth_eq by (rewrite app_length; cbn [length]; lia).
-  cbv zeta. rewrite nth_snoc_old by assumption. reflexivity.
+  se_ctx C. cbv zeta. apply ch_vrec_ext; cbn [v_x v_y v_data v_out]; se_open; ch_read; reflexivity.
 Qed.
 
 Lemma se_vert_old : forall u, u < NV -> u <> v3 -> nth u (d_verts d') dflt_v = nth u (d_verts d) dflt_v.
 Proof.
-  intros u Hu Nu. rewrite se_verts. rewrite nth_set_nth_neq by assumption. apply nth_snoc_old; assumption.
+  intros u Hu Nu. se_ctx C. apply ch_vrec_ext; se_open; ch_read; reflexivity.
 Qed.
 
 Lemma se_vert_frame : forall u, u < NV ->
@@ -873,7 +862,7 @@ Qed.
 
 Lemma se_flags : d_flags d' = d_flags d ++ [false; false; false].
 Proof.
-  change (d_flags d') with (((d_flags d ++ [false]) ++ [false]) ++ [false]).
+  unfold se_chain, DcelOps.split_edge; cbv zeta; cbn [fst]. ch_tables.
   rewrite <- !app_assoc. reflexivity.
 Qed.
 
@@ -994,23 +983,10 @@ Qed.
 Definition distinct5 (a b c e f : nat) : Prop :=
   a <> b /\ a <> c /\ a <> e /\ a <> f /\ b <> c /\ b <> e /\ b <> f /\ c <> e /\ c <> f /\ e <> f.
 
-(* the body of DcelOps.split_half_edge with its local names abstracted *)
+(* the dcel computed by DcelOps.split_half_edge, with names for the local values of the generated function
+   (see se_chain: not a copy of the generated chain, but the generated function itself) *)
 Definition sh_chain (d : dcel) (e t en ep tp e1 t1 e2 t2 f1 tf nf nv v to_ : nat) (nvd : vdata) : dcel :=
-  let dcel := push_edge d (mkh e2 en nf v) (mkh ep e f1 nv) in
-  let dcel := push_edge dcel (mkh en e1 nf nv) (mkh t tp tf to_) in
-  let dcel := push_face dcel (Some e2) in
-  let dcel := push_vertex dcel nvd (Some e2) in
-  let dcel := set_next dcel tp t2 in
-  let dcel := set_prev dcel en e2 in
-  let dcel := set_prev dcel ep t1 in
-  let dcel := set_prev dcel t t2 in
-  let dcel := set_next dcel en e1 in
-  let dcel := set_next dcel e t1 in
-  let dcel := set_face dcel en nf in
-  let dcel := set_origin dcel t nv in
-  let dcel := set_out_edge dcel to_ (Some t2) in
-  let dcel := set_adjacent_edge dcel f1 (Some e) in
-  dcel.
+  fst (DcelOps.split_half_edge d e nvd).
 
 Lemma split_half_edge_unfold : forall d e v,
   DcelOps.split_half_edge d e v =
@@ -1129,40 +1105,51 @@ Ltac neq5 :=
             unfold sh_other in O; decompose [and] O; first [assumption | apply not_eq_sym; assumption] end
         | lia ].
 
-Ltac ev5 := unfold sh_chain; unfold_setters; repeat (ev_step neq5); hproj.
+Lemma sh_names :
+  normalized (num_undirected_edges d) = e1 /\ normalized (num_undirected_edges d + 1) = e2.
+Proof.
+  sh_ctx C. pose proof (r_even d W) as Hev. unfold normalized, num_undirected_edges.
+  clear - Hev He1 He2. lia.
+Qed.
+
+(* open d' = fst (split_half_edge d e nvd) into the generated chain and rename the values it reads from d to the
+   names of the context (after sh_ctx C); independent of the order of the writes *)
+Ltac sh_open :=
+  let Q1 := fresh "Q" in let Q2 := fresh "Q" in
+  destruct sh_names as (Q1 & Q2);
+  unfold sh_chain, DcelOps.split_half_edge; cbv zeta; cbn [fst];
+  rewrite ?Q1, ?Q2;
+  ctx_rename;
+  match goal with D : distinct5 _ _ _ _ _ |- _ =>
+    let D' := fresh "D" in pose proof D as D'; unfold distinct5 in D'; decompose [and] D'; clear D' end;
+  try match goal with O : sh_other _ |- _ =>
+    let O' := fresh "O" in pose proof O as O'; unfold sh_other in O'; decompose [and] O'; clear O' end.
+
+Ltac ev5 := sh_open; ch_fields; ch_read; ch_fin.
 
 Lemma sh_len : length (d_hedges d') = NH + 4.
-Proof. unfold sh_chain; unfold_setters; autorewrite with len; lia. Qed.
+Proof using Type. unfold sh_chain, DcelOps.split_half_edge; cbv zeta; cbn [fst]. ch_len. lia. Qed.
 
 Lemma sh_he_e : half_edge d' e = mkh t1 ep f1 from.
-Proof.
-  sh_ctx C. ev5. unfold e_prev in Hpv_e. unfold e_face in Hfc_e. unfold e_origin in Hog_e.
-  rewrite Hpv_e, Hfc_e, Hog_e. reflexivity.
-Qed.
+Proof. sh_ctx C. ev5. Qed.
 Lemma sh_he_en : half_edge d' en = mkh e1 e2 nf to_.
-Proof. sh_ctx C. ev5. unfold e_origin in Hog_en. rewrite Hog_en. reflexivity. Qed.
+Proof. sh_ctx C. ev5. Qed.
 Lemma sh_he_ep : half_edge d' ep = mkh e t1 f1 v.
-Proof.
-  sh_ctx C. ev5. unfold e_next in Hnx_ep. unfold e_face in Hfc_ep. unfold e_origin in Hog_ep.
-  rewrite Hnx_ep, Hfc_ep, Hog_ep. reflexivity.
-Qed.
+Proof. sh_ctx C. ev5. Qed.
 Lemma sh_he_t : half_edge d' t = mkh tn t2 0 nv.
-Proof.
-  sh_ctx C. ev5. unfold e_next in Hnx_t. unfold e_face in Hfc_t.
-  rewrite Hnx_t, Hfc_t. reflexivity.
-Qed.
+Proof. sh_ctx C. ev5. Qed.
 Lemma sh_he_tp : half_edge d' tp = mkh t2 (e_prev d tp) 0 (e_origin d tp).
-Proof. sh_ctx C. ev5. unfold e_face in Hfc_tp. rewrite Hfc_tp. reflexivity. Qed.
+Proof. sh_ctx C. ev5. Qed.
 Lemma sh_he_e1 : half_edge d' e1 = mkh e2 en nf v.
-Proof. sh_ctx C. ev5. reflexivity. Qed.
+Proof. sh_ctx C. ev5. Qed.
 Lemma sh_he_t1 : half_edge d' t1 = mkh ep e f1 nv.
-Proof. sh_ctx C. ev5. reflexivity. Qed.
+Proof. sh_ctx C. ev5. Qed.
 Lemma sh_he_e2 : half_edge d' e2 = mkh en e1 nf nv.
-Proof. sh_ctx C. ev5. reflexivity. Qed.
+Proof. sh_ctx C. ev5. Qed.
 Lemma sh_he_t2 : half_edge d' t2 = mkh t tp 0 to_.
-Proof. sh_ctx C. ev5. rewrite Htf. reflexivity. Qed.
+Proof. sh_ctx C. ev5. Qed.
 Lemma sh_he_other : forall x, sh_other x -> half_edge d' x = half_edge d x.
-Proof. intros x O. sh_ctx C. assert (Hx : x < NH) by apply O. ev5. reflexivity. Qed.
+Proof. intros x O. sh_ctx C. assert (Hx : x < NH) by apply O. sh_open. ch_read. reflexivity. Qed.
 
 Lemma sh_rev_e : rev e = t. Proof. sh_ctx C; assumption. Qed.
 Lemma sh_rev_t : rev t = e. Proof. rewrite <- sh_rev_e; apply rev_invol. Qed.
@@ -1361,29 +1348,17 @@ Proof.
     apply (r_links d W x Hlt).
 Qed.
 
-Lemma sh_faces : d_faces d' = set_nth f1 (Some e) (d_faces d ++ [Some e2]).
-Proof. reflexivity. Qed.
-
 Lemma sh_nfaces : length (d_faces d') = NF + 1.
-Proof. rewrite sh_faces, length_set_nth, app_length; cbn [length]; lia. Qed.
+Proof using Type. unfold sh_chain, DcelOps.split_half_edge; cbv zeta; cbn [fst]. ch_len. lia. Qed.
 
 Lemma sh_adj_f1 : f_adjacent d' f1 = Some e.
-Proof.
-  sh_ctx C. unfold f_adjacent. rewrite sh_faces.
-  apply nth_set_nth_eq. rewrite app_length; cbn [length]; lia.
-Qed.
+Proof. sh_ctx C. sh_open. ch_read. reflexivity. Qed.
 
 Lemma sh_adj_nf : f_adjacent d' nf = Some e2.
-Proof.
-  sh_ctx C. unfold f_adjacent. rewrite sh_faces.
-  rewrite nth_set_nth_neq by lia. apply nth_snoc_new; assumption.
-Qed.
+Proof. sh_ctx C. sh_open. ch_read. reflexivity. Qed.
 
 Lemma sh_adj_old : forall f, f < NF -> f <> f1 -> f_adjacent d' f = f_adjacent d f.
-Proof.
-  intros f Hf N1. unfold f_adjacent. rewrite sh_faces.
-  rewrite nth_set_nth_neq by assumption. apply nth_snoc_old; assumption.
-Qed.
+Proof. intros f Hf N1. sh_ctx C. sh_open. ch_read. reflexivity. Qed.
 
 Hint Rewrite sh_adj_f1 sh_adj_nf : sh.
 
@@ -1458,29 +1433,23 @@ Qed.
 
 Local Notation newv := (mkv (vd_x nvd) (vd_y nvd) (vd_d nvd) (Some e2)).
 
-Lemma sh_verts : d_verts d' =
-  set_nth to_ (let r := nth to_ (d_verts d ++ [newv]) dflt_v in mkv (v_x r) (v_y r) (v_data r) (Some t2))
-    (d_verts d ++ [newv]).
-Proof. reflexivity. Qed.
-
 Lemma sh_nverts : length (d_verts d') = S NV.
-Proof. rewrite sh_verts, length_set_nth, app_length; cbn [length]; lia. Qed.
+Proof using Type. unfold sh_chain, DcelOps.split_half_edge; cbv zeta; cbn [fst]. ch_len. lia. Qed.
 
 Lemma sh_vert_new : nth nv (d_verts d') dflt_v = newv.
 Proof.
-  sh_ctx C. rewrite sh_verts. rewrite nth_set_nth_neq by lia. apply nth_snoc_new; assumption.
+  sh_ctx C. apply ch_vrec_ext; cbn [v_x v_y v_data v_out]; sh_open; ch_read; reflexivity.
 Qed.
 
 Lemma sh_vert_to : nth to_ (d_verts d') dflt_v =
   let b := nth to_ (d_verts d) dflt_v in mkv (v_x b) (v_y b) (v_data b) (Some t2).
 Proof.
-  sh_ctx C. rewrite sh_verts. rewrite nth_set_nth_eq by (rewrite app_length; cbn [length]; lia).
-  cbv zeta. rewrite nth_snoc_old by assumption. reflexivity.
+  sh_ctx C. cbv zeta. apply ch_vrec_ext; cbn [v_x v_y v_data v_out]; sh_open; ch_read; reflexivity.
 Qed.
 
 Lemma sh_vert_old : forall u, u < NV -> u <> to_ -> nth u (d_verts d') dflt_v = nth u (d_verts d) dflt_v.
 Proof.
-  intros u Hu Nu. rewrite sh_verts. rewrite nth_set_nth_neq by assumption. apply nth_snoc_old; assumption.
+  intros u Hu Nu. sh_ctx C. apply ch_vrec_ext; sh_open; ch_read; reflexivity.
 Qed.
 
 Lemma sh_vert_frame : forall u, u < NV ->
@@ -1528,7 +1497,7 @@ Qed.
 
 Lemma sh_flags : d_flags d' = d_flags d ++ [false; false].
 Proof.
-  change (d_flags d') with ((d_flags d ++ [false]) ++ [false]).
+  unfold sh_chain, DcelOps.split_half_edge; cbv zeta; cbn [fst]. ch_tables.
   rewrite <- !app_assoc. reflexivity.
 Qed.
 
